@@ -23,6 +23,12 @@ fn main() {
     }
     vlib::report::install_quiet_panic_hook();
     let id = args[1].as_str();
+    if id == "C09-child" {
+        std::process::exit(c09::long_child(&args[2], args[3].parse().unwrap()));
+    }
+    if id == "C15-handoff" {
+        std::process::exit(c15::handoff_child(&args[2], args[3].parse().unwrap(), args[4].parse().unwrap()));
+    }
     if id == "C15-child" {
         let code = c15::child(args[2].parse().unwrap(), args[3].parse().unwrap());
         std::process::exit(code);
